@@ -174,7 +174,8 @@ func hRandGrammar(r *vRand, maxNT, maxT, maxRules, maxLen int, opts hGenOpts) *h
 					rhs = append(rhs, Marker(r.Intn(2)))
 				}
 			}
-			if opts.markers && r.Intn(8) == 0 {
+			// state markers also in front of rules, and often in otherwise empty rules (which stay nullable)
+			if opts.markers && (r.Intn(8) == 0 || ln == 0 && r.Intn(2) == 0) {
 				rhs = append([]Sym{Marker(r.Intn(2))}, rhs...)
 			}
 			rule := Rule{LHS: Sym(g.nt + lhs), RHS: rhs}
